@@ -1475,7 +1475,7 @@ for _pid in ("C01", "C02", "C08"):
     PROPS[_pid]["level_text"] = PROPS[_pid]["level_text"] + (
         " The levels are joined in Props/C02DispatchCode: each function that a call on a child stands for in the translated "
         "matcher is proved to be the translated body of the method Go dispatches to, run on that child (static_is_lib, hole_is_lib, "
-        "regex_is_lib, all_is_lib, all_matchAll_is_lib for the four leaf kinds; regexTree_match_is_lib, holeTree_match_is_lib, "
+        "regex_is_lib, all_is_lib, all_matchAll_is_lib for the four leaf kinds; staticTree_match_is_lib (Gen/StaticTreeCode.lean), regexTree_match_is_lib, holeTree_match_is_lib, "
         "next_is_lib and C08AllTreeCode.matchAll_is_lib for the subtrees) — what remains between the levels is Go's dynamic dispatch "
         "itself.")
 _ALL = ['C01', 'C02', 'C03', 'C04', 'C05', 'C06', 'C07', 'C08', 'C09', 'C10', 'C11', 'C12', 'C13', 'C14', 'C15', 'C16', 'C17', 'C18']
